@@ -90,6 +90,11 @@ pub struct ShutdownCase {
     /// entirely into the protocol detector's buffer
     #[serde(default)]
     pub instant_request: u8,
+    /// the caller keeps the serving future alive after it has completed (a pinned future in a
+    /// `select!` loop, a struct field) instead of consuming it: shutting the connections down must
+    /// not wait for the future to be dropped
+    #[serde(default)]
+    pub hold_server_future: bool,
 }
 
 #[derive(Clone, Default)]
@@ -475,7 +480,8 @@ impl Scenario for ShutdownSim {
             conns.push(ConnPlan { kind, start_ms: r.below(30), reqs });
         }
         let instant_request = if !tls && proto != ServerProto::H2 { *Rng::keyed(seed, "shutdown/instant").pick(&[0u8, 0, 1, 2]) } else { 0 };
-        ShutdownCase { seed, proto, conns, signal_at_ms: r.below(60), io_faulty: r.chance(1, 3), tls, native_builder: r.bool(), instant_request }
+        let hold_server_future = Rng::keyed(seed, "shutdown/hold").chance(1, 3);
+        ShutdownCase { seed, proto, conns, signal_at_ms: r.below(60), io_faulty: r.chance(1, 3), tls, native_builder: r.bool(), instant_request, hold_server_future }
     }
 
     fn execute(&self, case: &ShutdownCase) -> Outcome {
@@ -507,13 +513,21 @@ impl Scenario for ShutdownSim {
                 let exec = SimExecutor::default();
                 let t0 = tokio::time::Instant::now();
                 let net_s = net.clone();
+                #[allow(clippy::type_complexity)]
+                let server_slot: Arc<Mutex<Option<((u64, u64), Result<(), String>)>>> = Arc::new(Mutex::new(None));
                 let server = tokio::task::spawn_local({
                     let tls_cfg = if case.tls { Some(crate::tlsfix::server_config(crate::tlsfix::CertKind::Good, &[])) } else { None };
-                    let f = run_server_opts(acc, case.proto, tls_cfg, ctx, exec.clone(), Some(rx), case.native_builder, false);
+                    let f = run_server_held(acc, case.proto, tls_cfg, ctx, exec.clone(), Some(rx), case.native_builder, false, if case.hold_server_future { Some(server_slot.clone()) } else { None });
+                    let (slot, hold) = (server_slot.clone(), case.hold_server_future);
                     async move {
-                        let r = f.await;
+                        let mut f = Box::pin(f);
+                        let r = (&mut f).await;
                         // completion instant (and how much of the clock's progress was the time pump's)
-                        ((net_s.now_ms(), crate::net::pumped_ms()), r.map_err(|e| e.to_string()))
+                        // (with `hold` the call above never returns: the finished serving future stays
+                        // alive inside it and the outcome has been left in the slot)
+                        let _ = hold;
+                        *slot.lock() = Some(((net_s.now_ms(), crate::net::pumped_ms()), r.map_err(|e| e.to_string())));
+                        drop(f);
                     }
                 });
                 let mut obs: Vec<Arc<Mutex<ConnObs>>> = vec![];
@@ -635,7 +649,8 @@ impl Scenario for ShutdownSim {
                     }
                     tokio::time::sleep(Duration::from_millis(10)).await;
                 }
-                let server_result = if server.is_finished() { Some(server.await.unwrap()) } else { server.abort(); None };
+                let server_result = server_slot.lock().take();
+                server.abort();
                 let obs: Vec<ConnObs> = obs.iter().map(|o| o.lock().clone()).collect();
                 let instant = instant_obs.lock().clone();
                 let seen = log.lock().seen.clone();
@@ -780,6 +795,10 @@ impl Scenario for ShutdownSim {
             if o.connected_ms.is_some() {
                 let last_activity = o.results.iter().map(|x| x.1).max().unwrap_or(0).max(t_s);
                 match o.closed_ms {
+                    // (a serving future that is kept alive keeps its listener: a connect at or after
+                    // the signal then waits in the accept queue of a server that accepts no more -
+                    // the caller's doing, who can drop the future)
+                    None if case.hold_server_future && o.connected_ms.map(|c0| c0 >= t_s).unwrap_or(false) => {}
                     None => not_closed.push((ci, c.kind, stage)),
                     Some(cl) => {
                         if cl > last_activity + slack {
@@ -816,6 +835,8 @@ impl Scenario for ShutdownSim {
                 }
             }
             match instant.closed_ms {
+                // (signal at the very instant of the connect: never accepted, see above)
+                None if case.hold_server_future && instant.connected_ms.map(|c0| c0 >= t_s).unwrap_or(false) => {}
                 None => viol("instant_connection_not_closed", format!("the connection that sent its request at the instant of the signal ({} ms) was never closed by the server", t_s)),
                 Some(cl) => {
                     let last = instant.results.iter().map(|x| x.1).max().unwrap_or(0).max(t_s);
